@@ -831,6 +831,11 @@ lyd_diff_attrs(const struct lyd_node *first, const struct lyd_node *second, uint
             LY_CHECK_ERR_RET(!*orig_value, LOGMEM(schema->module->ctx), LY_EMEM);
         } else {
             LY_CHECK_RET(lyd_any_value_str(first, orig_value));
+            if (!*orig_value) {
+                /* no value, the metadata is still expected */
+                *orig_value = strdup("");
+                LY_CHECK_ERR_RET(!*orig_value, LOGMEM(schema->module->ctx), LY_EMEM);
+            }
         }
     }
 
